@@ -9,6 +9,7 @@ mod c09;
 mod seed;
 mod c10;
 mod c11;
+mod c12;
 mod c15;
 mod c16;
 mod c18;
@@ -33,6 +34,9 @@ fn checks_for(property: &str, tier: Tier) -> Vec<Box<dyn Check>> {
         | "C03" => vec![Box::new(c02::Universe::new(c02::Mode::Acceptance, tier))],
         | "C04" => c04::checks(tier),
         | "C05" => c05::checks(),
+        | "C12" => vec![Box::new(c12::Fmt::new(c12::Mode::Meaning, tier))],
+        | "C13" => vec![Box::new(c12::Fmt::new(c12::Mode::Text, tier))],
+        | "C14" => vec![Box::new(c12::Fmt::new(c12::Mode::Idempotence, tier))],
         | "C15" => c15::checks(tier),
         | "C16" => c16::checks(tier),
         | "C18" => vec![Box::new(c18::Lowered::new(c18::Mode::Lowering, tier))],
@@ -52,6 +56,7 @@ fn checks_for(property: &str, tier: Tier) -> Vec<Box<dyn Check>> {
 fn level_for(property: &str) -> &'static str {
     match property {
         | "C06" | "C08" | "C09" | "C15" | "C17" => "model_checking",
+        | "C19" => "translation_validation",
         | _ => "exploration",
     }
 }
